@@ -35,12 +35,12 @@ def run(ck):
     if not skip_model:
         if thorough:
             for cfg in ("Engine_c08_thorough.cfg", "Engine_c08_thorough_fixed.cfg", "Engine_c08_thorough3.cfg"):
-                jobs.append(lambda cfg=cfg: ck.tlc_model("Engine", cfg, timeout=3000, workers=6))
-            ck.setcov("constants", "2 shards: epochs 0..2 (lock expiry), modes rw/ro/dro, 1 lock, 2 tombstones (+ put faults in the repaired world); "
+                jobs.append(lambda cfg=cfg: ck.tlc_model("Engine", cfg, timeout=7200, workers=6))
+            ck.setcov("constants", "2 shards: epochs 0..2 (lock expiry), modes rw/ro, 1 lock, 2 tombstones (repaired world: + degraded mode and put faults); "
                                    "3 shards: one shard flips rw/ro, 1 lock, 1 tombstone; <=2 broadcasts in flight, every visiting order")
         else:
             for cfg in ("Engine_c08_quick.cfg", "Engine_c08_quick_fixed.cfg"):
-                jobs.append(lambda cfg=cfg: ck.tlc_model("Engine", cfg, timeout=900, workers=4))
+                jobs.append(lambda cfg=cfg: ck.tlc_model("Engine", cfg, timeout=3000, workers=4))
             ck.setcov("constants", "2 shards, modes rw/ro, 1 object, 1 lock, 1 tombstone, <=2 broadcasts in flight")
         ck.setcov("exhaustive", True)
     scripts = []
